@@ -482,7 +482,7 @@ class IGen(Gen):
                     fs.append(len(funcs))
                     funcs.append(dict(nparams=1 + len(md["ptypes"]), pkg=ipkg, method=False, body=("skip",),
                                       ptypes=[("S", j)] + list(md["ptypes"]), rtype="T", ltypes={}, impl=(j, m)))
-                impls.append(dict(iface=k, funcs=fs, pkg=ipkg, valrecv=r.random() < 0.35))
+                impls.append(dict(iface=k, funcs=fs, pkg=ipkg, valrecv=r.random() < 0.35, embed=r.random() < 0.3))
         ngl = r.choice([0, 0, 1]) if self.globals_ else 0
         self.p = dict(funcs=funcs, ginit=[r.random() < 0.5 for _ in range(ngl)], gpkg=[r.randrange(npk) for _ in range(ngl)],
                       npkgs=npk, ifaces=ifaces, impls=impls)
@@ -721,7 +721,13 @@ def run_truth(root):
         return None, "go build of the generated module failed:\n" + (out + err)[-3000:]
     rc, out, err = common.sh2([os.path.join(root, "runbin")], cwd=root, timeout=1200)
     if rc != 0:
-        return None, "running the generated programs failed:\n" + (out + err)[-3000:]
+        txt = out + err
+        if "stack overflow" in txt:
+            # a generated program that recurses without bound (the model's exec runs out of fuel): name it
+            m = re.search(r"goroutine 1 .*?ex\.com/mg/(\w+)/p\d", txt, flags=re.S)
+            if m:
+                return None, "UNBOUNDED-RECURSION " + m.group(1)
+        return None, "running the generated programs failed:\n" + txt[-3000:]
     res = {}
     for l in out.splitlines():
         parts = l.split(" ")
@@ -977,7 +983,7 @@ def sink_of(c):
 FN_RE = [
     (re.compile(r"^\S+\.F(\d+)$"), lambda m, p: ("func", int(m.group(1)), 0)),
     (re.compile(r"^\(\*\S+\.T\)\.M(\d+)$"), lambda m, p: ("func", int(m.group(1)), 1)),
-    (re.compile(r"^\(\*?\S+\.S(\d+)\)\.X(\d+)x(\d+)$"), lambda m, p: ("func", p["impls"][int(m.group(1))]["funcs"][int(m.group(3))], 1)),
+    (re.compile(r"^\(\*?\S+\.S(\d+)B?\)\.X(\d+)x(\d+)$"), lambda m, p: ("func", p["impls"][int(m.group(1))]["funcs"][int(m.group(3))], 1)),
     (re.compile(r"^\(\S+\.I(\d+)\)\.X(\d+)x(\d+)$"), lambda m, p: ("imeth", int(m.group(1)), int(m.group(3)))),
 ]
 
@@ -1225,7 +1231,15 @@ def run_suite(ctx, cases, styles_seed=0, nb=None):
     if nb is not None:
         NB = nb
     try:
-        return _run_suite(ctx, cases, styles_seed)
+        for _ in range(6):
+            r = _run_suite(ctx, cases, styles_seed)
+            if "error" in r and r["error"].startswith("UNBOUNDED-RECURSION "):
+                # drop the program that never terminates (in place: the callers iterate over the same list)
+                bad = r["error"].split()[1]
+                cases[:] = [c for c in cases if c.name != bad]
+                continue
+            return r
+        return r
     finally:
         NB = old_nb
 
